@@ -376,7 +376,9 @@ impl Tokenizer<'_> {
 
             State::Pound(start) => Err(KikiErr::Lex(start, Some('#'))),
 
-            State::OuterAttribute(start, _, end) => self.finish_outer_attribute(start, end),
+            // An outer attribute is finished by the handler of its closing bracket.
+            // If it is still pending here, the input ended before the attribute did.
+            State::OuterAttribute(..) => Err(KikiErr::Lex(current_index, current)),
         }?;
 
         self.state = State::Main;
